@@ -28,7 +28,7 @@ const (
 
 // packages whose functions may be called (everything else external is undecided)
 var detAllowedPkgs = map[string]bool{
-	"fmt": true, "bytes": true, "strings": true, "slices": true, "cmp": true, "path/filepath": true,
+	"fmt": true, "bytes": true, "strings": true, "slices": true, "cmp": true,
 	"github.com/google/go-cmp/cmp": true, "github.com/google/go-cmp/cmp/cmpopts": true,
 	"strconv": true, "unicode": true, "unicode/utf8": true, "errors": true,
 }
@@ -36,6 +36,9 @@ var detAllowedPkgs = map[string]bool{
 // per-function allow-list inside otherwise restricted packages
 var detAllowedFuncs = map[string]bool{
 	"os.ReadFile": true, "os.WriteFile": true, "os.Exit": true,
+	// path/filepath: only the functions that compute on the path text; Glob, Walk, Abs, EvalSymlinks read the file system
+	"path/filepath.Join": true, "path/filepath.Dir": true, "path/filepath.Base": true, "path/filepath.Ext": true, "path/filepath.Clean": true,
+	"path/filepath.Split": true, "path/filepath.ToSlash": true, "path/filepath.FromSlash": true, "path/filepath.IsAbs": true, "path/filepath.Rel": true,
 	"reflect.ValueOf": true, "reflect.(Value).Kind": true, "reflect.(Value).Int": true, "reflect.(Value).Uint": true,
 	"reflect.(Value).Float": true, "reflect.(Value).String": true, "reflect.(Value).Bool": true, "reflect.TypeOf": true,
 }
